@@ -8,10 +8,122 @@ namespace Osmium.Pbf
 open Osmium.Wire Osmium.Osm Osmium.PbfMsg
 open Osmium.PbfSpec (Choices)
 
+/-- the cases of `decode_node`'s `switch` for different (tag, wire type) commute: 1 / 8 / 9 set id / lat / lon,
+    2 / 3 / 4 set keys / vals / (info, user), and `decode_info` reads the info slot only -/
+theorem spec_nodeStep_commutes (p : Params) (r : ROpts) : CommutesOn (nodeStep p r) (fun _ => True) := by
+  intro s f g _ _ hk
+  obtain ⟨t1, w1, v1, p1⟩ := f
+  obtain ⟨t2, w2, v2, p2⟩ := g
+  simp only [key, ne_eq, Prod.mk.injEq, not_and] at hk
+  unfold nodeStep metaStep
+  dsimp only
+  split <;> split <;> (try (simp_all; done)) <;> (try simp only [Option.bind_some])
+  all_goals (repeat' split)
+  all_goals (try (simp_all; done))
+  all_goals (first
+    | (rcases h : decodeInfo p s.info p2 with _ | x <;> simp_all <;> done)
+    | (rcases h : decodeInfo p s.info p1 with _ | x <;> simp_all <;> done))
+
+/-- the canonical field list of the spec's Node message -/
+def specNodeFields (ch : Choices) (table : List Bytes) (hist : Bool) (m : Meta) (l : Location) : List Field :=
+  [PbfSpec.fSInt 1 m.id] ++ PbfSpec.metaFields ch table hist m ++
+    [PbfSpec.fSInt 8 (PbfSpec.coord ch.granularity ch.latOffset l.y),
+     PbfSpec.fSInt 9 (PbfSpec.coord ch.granularity ch.lonOffset l.x)]
+
+theorem spec_nodeMsg_eq (ch : Choices) (table : List Bytes) (hist : Bool) (m : Meta) (l : Location) :
+    PbfSpec.nodeMsg ch table hist m l = PbfSpec.msg ch PbfSpec.kNode (specNodeFields ch table hist m l) := rfl
+
+theorem spec_nodeFields_wf (ch : Choices) (hch : ChoicesOk ch) (table : List Bytes) (hist : Bool) (m : Meta) (l : Location)
+    (hid : IdOk m.id) (hl : LocOk l)
+    (hlen : (PbfSpec.nodeMsg ch table hist m l).length < 2 ^ 32) :
+    ∀ f ∈ specNodeFields ch table hist m l, f.WF := by
+  intro f hf
+  have hf0 := hf
+  have by8 := spec_coord_bound ch.granularity ch.latOffset l.y hch.gran.1 hch.latOff hl.2
+  have bx9 := spec_coord_bound ch.granularity ch.lonOffset l.x hch.gran.1 hch.lonOff hl.1
+  unfold specNodeFields at hf
+  simp only [List.mem_append, List.mem_cons, List.not_mem_nil, or_false] at hf
+  rcases hf with (hf | hf) | (hf | hf)
+  · subst hf
+    exact wf_varint 1 _ (by decide) (by decide) (zigzag_lt _ hid.1 hid.2)
+  · obtain ⟨hw, ht, hv⟩ := spec_metaFields_shape ch table hist m f hf
+    have hp := payload_le_msg ch PbfSpec.kNode _ f hf0 hw
+    rw [← spec_nodeMsg_eq] at hp
+    obtain ⟨tag, wt, val, payload⟩ := f
+    simp only at hw ht hv hp
+    subst hw hv
+    rcases ht with rfl | rfl | rfl <;>
+      exact ⟨by simp, by simp, by simp, rfl, Nat.lt_of_le_of_lt hp hlen⟩
+  · subst hf
+    exact wf_varint 8 _ (by decide) (by decide)
+      (zigzag_lt _ (by simp only [Int.reducePow] at *; omega) (by simp only [Int.reducePow] at *; omega))
+  · subst hf
+    exact wf_varint 9 _ (by decide) (by decide)
+      (zigzag_lt _ (by simp only [Int.reducePow] at *; omega) (by simp only [Int.reducePow] at *; omega))
+
 theorem spec_node (ch : Choices) (hch : ChoicesOk ch) (table : List Bytes) (hist : Bool) (m : Meta) (l : Location)
     (hrep : ObjRep ch (.node m l)) (htab : ∀ s ∈ PbfSpec.stringsOf (.node m l), TableOk table s)
     (hlen : (PbfSpec.nodeMsg ch table hist m l).length < 2 ^ 32) :
     withFields (PbfSpec.nodeMsg ch table hist m l) (decodeNode (specParams ch table) {}) = some (.node m l) := by
-  sorry
+  obtain ⟨⟨hmd, hid, hts, hstr⟩, hl, hvis⟩ := hrep
+  have hwf := spec_nodeFields_wf ch hch table hist m l hid hl hlen
+  unfold withFields
+  rw [spec_nodeMsg_eq, readFields_msg ch _ _ hwf (hch.extrasWF PbfSpec.kNode)]
+  simp only
+  unfold decodeNode
+  rw [decodeMsg_arrange' (nodeStep (specParams ch table) {}) nodeKnown (nodeStep_unknown _ _)
+    (spec_nodeStep_commutes _ _) ch PbfSpec.kNode _ _ (hch.extrasUnknown PbfSpec.kNode)]
+  have hstate : decodeMsg (nodeStep (specParams ch table) {}) {} (specNodeFields ch table hist m l) =
+      some { id := m.id, keys := pack (m.tags.map fun t => PbfSpec.idx table t.key),
+             vals := pack (m.tags.map fun t => PbfSpec.idx table t.value), info := infoOf m, user := m.user,
+             lat := PbfSpec.coord ch.granularity ch.latOffset l.y,
+             lon := PbfSpec.coord ch.granularity ch.lonOffset l.x } := by
+    have hmeta := spec_meta ch hch table hist m (specParams ch table) rfl rfl hmd hts
+      (htab m.user (by simp [PbfSpec.stringsOf])) { id := m.id } ⟨rfl, rfl, rfl, rfl⟩
+    have hstep : decodeMsg (nodeStep (specParams ch table) {}) { id := m.id } (PbfSpec.metaFields ch table hist m) =
+        decodeMsg (metaStep (specParams ch table) {}) { id := m.id } (PbfSpec.metaFields ch table hist m) :=
+      decodeMsg_congr_step _ _ _ _ (fun f hf s => nodeStep_ld _ _ s f (spec_metaFields_shape ch table hist m f hf).1)
+    have h0 : decodeMsg (nodeStep (specParams ch table) {}) {} [PbfSpec.fSInt 1 m.id] = some { id := m.id } := by
+      simp [decodeMsg, nodeStep, spec_fSInt, fVarint, unzigzag_zigzag]
+    unfold specNodeFields
+    rw [decodeMsg_append, decodeMsg_append, h0, Option.bind_some, hstep, hmeta, Option.bind_some]
+    simp [decodeMsg, nodeStep, spec_fSInt, fVarint, unzigzag_zigzag]
+  rw [hstate]
+  have htags := spec_finishTags table (specParams ch table) rfl m
+    { id := m.id, keys := pack (m.tags.map fun t => PbfSpec.idx table t.key),
+      vals := pack (m.tags.map fun t => PbfSpec.idx table t.value), info := infoOf m, user := m.user,
+      lat := PbfSpec.coord ch.granularity ch.latOffset l.y,
+      lon := PbfSpec.coord ch.granularity ch.lonOffset l.x } rfl rfl
+    (fun t ht => ⟨htab t.key (by
+        simp only [PbfSpec.stringsOf, List.mem_cons, List.mem_flatMap]
+        exact Or.inr ⟨t, ht, by simp⟩),
+      htab t.value (by
+        simp only [PbfSpec.stringsOf, List.mem_cons, List.mem_flatMap]
+        exact Or.inr ⟨t, ht, by simp⟩)⟩)
+  have by8 := spec_coord_bound ch.granularity ch.latOffset l.y hch.gran.1 hch.latOff hl.2
+  have bx9 := spec_coord_bound ch.granularity ch.lonOffset l.x hch.gran.1 hch.lonOff hl.1
+  have nx : (PbfSpec.coord ch.granularity ch.lonOffset l.x == int64Max) = false := by
+    simp only [int64Max, Int.reducePow, beq_eq_false_iff_ne, ne_eq] at *; omega
+  have ny : (PbfSpec.coord ch.granularity ch.latOffset l.y == int64Max) = false := by
+    simp only [int64Max, Int.reducePow, beq_eq_false_iff_ne, ne_eq] at *; omega
+  have hmk : mkMeta
+      { id := m.id, keys := pack (m.tags.map fun t => PbfSpec.idx table t.key),
+        vals := pack (m.tags.map fun t => PbfSpec.idx table t.value), info := infoOf m, user := m.user,
+        lat := PbfSpec.coord ch.granularity ch.latOffset l.y,
+        lon := PbfSpec.coord ch.granularity ch.lonOffset l.x } m.tags = m := by
+    cases m; rfl
+  have hiv : (infoOf m).visible = m.visible := rfl
+  have hpg : (specParams ch table).granularity = ch.granularity := rfl
+  have hpx : (specParams ch table).lonOffset = ch.lonOffset := rfl
+  have hpy : (specParams ch table).latOffset = ch.latOffset := rfl
+  simp only [Option.bind_eq_bind, Option.bind_some, htags, hmk, nx, ny, hiv, hpg, hpx, hpy, Bool.or_self,
+    Bool.false_eq_true, ↓reduceIte, pure]
+  by_cases hv : m.visible = true
+  · simp only [hv, ↓reduceIte] at hvis ⊢
+    obtain ⟨_, hrx, hry⟩ := hvis
+    rw [spec_convCoord_coord _ _ _ hch.gran.1 hch.lonOff hl.1 hrx,
+      spec_convCoord_coord _ _ _ hch.gran.1 hch.latOff hl.2 hry]
+  · simp only [hv, Bool.false_eq_true, ↓reduceIte] at hvis ⊢
+    rw [hvis]
 
 end Osmium.Pbf
